@@ -22,6 +22,8 @@ type MsgSpec struct {
 	Body    []byte     `json:"-"`
 	Files   []FileSpec `json:"-"`
 	Shape   string     `json:"shape"` // human-readable description for evidence
+	// NoDate: the message has no Date field (Validate does not ask for one: still a valid message to queue).
+	NoDate bool `json:"no_date,omitempty"`
 	// Extra header lines (name, raw value) - used for hostile header content.
 	Extra [][2]string `json:"extra,omitempty"`
 }
@@ -38,7 +40,9 @@ func (m MsgSpec) Wire() []byte {
 	fmt.Fprintf(&b, "Body: %d\r\n", len(m.Body))
 	fmt.Fprintf(&b, "Content-Transfer-Encoding: 8bit\r\n")
 	fmt.Fprintf(&b, "Content-Type: text/plain; charset=ISO-8859-1\r\n")
-	fmt.Fprintf(&b, "Date: 2024/05/17 13:45\r\n")
+	if !m.NoDate {
+		fmt.Fprintf(&b, "Date: 2024/05/17 13:45\r\n")
+	}
 	for _, f := range m.Files {
 		fmt.Fprintf(&b, "File: %d %s\r\n", len(f.Data), f.Name)
 	}
@@ -67,13 +71,37 @@ func (m MsgSpec) Wire() []byte {
 // message is valid per Message.Validate (the generator's contract).
 func (m MsgSpec) Canonical() ([]byte, error) {
 	msg := new(fbb.Message)
-	if err := msg.ReadFrom(bytes.NewReader(m.Wire())); err != nil {
+	if m.NoDate {
+		// built the way an application builds it: the message object without a Date field (parsed with one, field removed)
+		dated := m
+		dated.NoDate = false
+		if err := msg.ReadFrom(bytes.NewReader(dated.Wire())); err != nil {
+			return nil, fmt.Errorf("generated message does not parse: %w", err)
+		}
+		msg.Header.Del("Date")
+	} else if err := msg.ReadFrom(bytes.NewReader(m.Wire())); err != nil {
 		return nil, fmt.Errorf("generated message does not parse: %w", err)
 	}
 	if err := msg.Validate(); err != nil {
 		return nil, fmt.Errorf("generated message is not valid: %w", err)
 	}
-	return msg.Bytes()
+	b, err := msg.Bytes()
+	if err != nil {
+		// the library parsed the message and calls it valid, and cannot write it: such a message can be queued and will
+		// never be proposed - a verdict for the properties that quantify over "valid queued messages", not a harness problem
+		return nil, &UnserialisableError{MID: m.MID, Shape: m.Shape, Err: err}
+	}
+	return b, nil
+}
+
+// UnserialisableError: Message.ReadFrom and Validate accepted the message, Message.Bytes failed.
+type UnserialisableError struct {
+	MID, Shape string
+	Err        error
+}
+
+func (e *UnserialisableError) Error() string {
+	return fmt.Sprintf("message %s (%s) parses and is valid per Validate, but cannot be serialised: %v", e.MID, e.Shape, e.Err)
 }
 
 const midAlphabet = "ABCDEFGHIJKLMNOPQRSTUVWXYZ0123456789"
@@ -197,6 +225,14 @@ func GenMsg(r *rand.Rand, mid, from string, to string) MsgSpec {
 	m := MsgSpec{MID: mid, From: from, To: []string{to}}
 	var sshape string
 	m.Subject, sshape = GenSubject(r)
+	if r.Intn(12) == 0 {
+		m.NoDate = true
+		sshape += ",no-date"
+	}
+	if r.Intn(6) == 0 { // extension fields of the application's own: part of the message
+		m.Extra = [][2]string{{"X-Location", "60.1N 5.3E (GPS)"}, {"X-Source", from}}
+		sshape += ",x-fields"
+	}
 	// body 1 B .. 40 kB
 	var n int
 	switch r.Intn(6) {
